@@ -449,8 +449,48 @@ class Gen:
             v = self.field(d, depth, want_default=want_default)
             if v == ("__default__",):
                 v = default_value(cls, d)
+            elif d.tag is not None and not d.array and want_default is not True and self.r.random() < 0.3:
+                # one step away from the default: a tagged field is elided exactly when it EQUALS its default, so the values
+                # that matter most are those differing from it in one leaf only - by one, by -1 -> -2 (equal hashes in
+                # CPython) or by 2^61-1 (equal hashes for every int)
+                nd = self.near_default(default_value(cls, d), d)
+                if nd is not None:
+                    self.count("tagged:near-default")
+                    v = nd
             vals.append(v)
         return ("ent", vals)
+
+    def near_default(self, dv, d: FDesc):
+        r = self.r
+
+        def bump(z, kafka):
+            lo, hi = INT_RANGES.get(kafka, (None, None))
+            if lo is None:
+                return None
+            cands = [z + 1, z - 1]
+            if z == -1:
+                cands = [-2, -2, 0]
+            if kafka in ("int64", "uint64") and lo <= z + (2**61 - 1) <= hi:
+                cands.append(z + (2**61 - 1))
+            cands = [c for c in cands if lo <= c <= hi]
+            return r.choice(cands) if cands else None
+        if dv[0] == "int" and d.ent is None and d.kafka in INT_RANGES:
+            z = bump(dv[1], d.kafka)
+            return None if z is None else ("int", z)
+        if dv[0] == "ent" and d.ent is not None:
+            members = describe(d.ent)
+            idxs = [i for i, m in enumerate(members) if m.tag is None and not m.array and m.ent is None and m.kafka in INT_RANGES
+                    and dv[1][i][0] == "int"]
+            if not idxs:
+                return None
+            i = r.choice(idxs)
+            z = bump(dv[1][i][1], members[i].kafka)
+            if z is None:
+                return None
+            vals = list(dv[1])
+            vals[i] = ("int", z)
+            return ("ent", vals)
+        return None
 
 
 def default_value(cls, d: FDesc):
